@@ -471,6 +471,8 @@ class Interp:
             if isinstance(r, (Gen, list, tuple)):
                 return self.iterate(r, node)
             self.fail(node, '__iter__ returning %r' % (r,))
+        if v is None or isinstance(v, (bool, int, float)):
+            raise PyExc("TypeError: '%s' object is not iterable" % type(v).__name__)
         self.fail(node, 'iteration over %r' % (v,))
 
     def binop(self, op, a, b, node):
@@ -536,7 +538,14 @@ class Interp:
                 return self.ev(v, Env(), r[1], None)
         if name in _BUILTIN_NAMES:
             return ('builtin', name)
+        if name == 'deepcopy' and mod is not None and self._imports_from(mod, 'copy', 'deepcopy'):
+            return native(lambda it, a, k: it.deepcopy(a[0], {}))
         self.fail(node, 'name ' + name)
+
+    @staticmethod
+    def _imports_from(mod, module, name):
+        return any(isinstance(st, ast.ImportFrom) and st.module == module and any((a.asname or a.name) == name for a in st.names)
+                   for st in ast.walk(mod.tree))
 
     def class_attr(self, c, name, node):
         """class-level attribute / method of an indexed class"""
